@@ -13,7 +13,7 @@ RULE = (
     "on_error = yield, continue, raise - on freshly loaded CIDs from six storages; relational oracle: continue == accepted "
     "rows of yield, raise == prefix before the first rejection + that same error (type and text), yielded errors keep "
     "their location after the iteration moved on, accepted + rejected == number of data rows (also under a validation limit, where the rows behind it count as accepted); each also compared with "
-    "M-reader. Container faults injected at every row boundary k: unterminated quote opened in row k, UTF-16 / UTF-32 data without byte order mark, fixed data that end at every position inside their last record, undecodable byte in "
+    "M-reader. Container faults injected at every row boundary k: unterminated quote opened in row k, UTF-16 / UTF-32 data without byte order mark, fixed data that end at every position inside their last record or inside its CR LF, undecodable byte in "
     "row k (files, utf-8 and ascii), fixed record k cut short or its delimiter replaced, ODS/XLSX archives truncated at "
     "every 64th byte and content.xml cut - expected: rows before the fault as usual (a prefix for decoding faults), then "
     "DataFormatError, in every mode. A case is (CID, table, storage, fault) over the three modes, distinct by digest, "
@@ -274,6 +274,11 @@ def fault_cases(ctx, index):
                 bad[k] = records[k] + "X" * len(delim)
                 fault = {"kind": "wrong-delimiter", "row": k + 1, "prefix_rows": max(0, k - model.header)}
                 check_fault_text(ctx, model, store, "".join(bad), table[:k], fault)
+        # (2b) the data end inside the delimiter of the last record (CR LF cut after the CR)
+        if len(delim) == 2:
+            text = "".join(r + delim for r in records)[:-1]
+            fault = {"kind": "partial-delimiter", "row": len(records), "prefix_rows": max(0, len(records) - 1 - model.header)}
+            check_fault_text(ctx, model, store, text, table[: len(records) - 1], fault)
         # (3) the data end inside the last record, at every position - also where only blanks of a right-aligned first
         # value are left of it
         last = records[-1]
